@@ -198,7 +198,7 @@ class DataContainer(_BaseDataContainer):
         elif isinstance(other,DataContainer):
             self._data += other._data
             for attr in self._attr.values():
-                attr._expand(other.n_elem)
+                attr._expand(len(other))
         else:
             raise Exception("Could not append data container of type {} onto an attribute".format(type(other)))
         return self
@@ -301,7 +301,7 @@ class CornerDataContainer(_BaseDataContainer):
             self._elem += other._elem
             self._adj += other._adj
             for attr in self._attr.values():
-                attr._expand(other.n_elem)
+                attr._expand(len(other))
         else:
             raise Exception("Could not append data container of type {} onto an attribute".format(type(other)))
         return self
